@@ -167,6 +167,14 @@ def _restrict_checks(ctx, R, rel, cn, mass):
     inh = one(lambda c: c.rhs == f'self.space_transfer.restrict({F}.tau[i1 - 1])', '')
     ok = rs3 is not None and 'error' not in rs3 and rs3['ops'] and all(o == '+=' for o in rs3['ops']) and rs3['signs'] == {1} and rs3['lo'] == Affine(0) and rs3['hi'] == Affine(-1, {MF: 1}) and rs3['rows'] == {'i1-1'}
     ok = ok and all(f'{F}.tau[0] is not None' in c.guards for c in rs3['contribs']) and len(inh) == 1 and f'{F}.tau[0] is not None' in inh[0].guards and rs3['vec'] == {inh[0].target.split('[')[0]}
+    # ... and that is the ONLY way the inherited tau enters: every `+=` into G.tau is one of the Rcoll-weighted contributions,
+    # under exactly the is-not-None guard (a shortcut `if equal node counts: tau[n] += tmp[n]` bypasses the time restriction)
+    if ok:
+        allplus = [c for c in N.contribs if re.match(rf'{re.escape(G)}\.tau\[', c.target) and c.op == '+=']
+        extra = [c.describe()[:120] for c in allplus if c not in rs3['contribs']]
+        common = set(tau_def[0].guards) if tau_def else set()
+        narrowed = [c.describe()[:120] for c in rs3['contribs'] if [g for g in c.guards if g != f'{F}.tau[0] is not None' and g not in common]]
+        ok = not extra and not narrowed
     R.check(ok, 'restrict :: an inherited fine tau is restricted (space, then full row of Rcoll) and ADDED to the coarse tau', w, f'if F.tau[0] is not None: G.tau[n] += sum_m Rcoll[n,m] * R(F.tau[m])', None if rs3 is None else {k: str(v) for k, v in rs3.items() if k != 'contribs'})
     if rs3 and 'contribs' in rs3 and tau_def:
         R.check(all(idx[id(c)] > idx[id(tau_def[0])] for c in rs3['contribs']), 'restrict :: inherited part is added after tau was defined', w, 'definition precedes +=', 'order')
@@ -373,3 +381,9 @@ def r7(ctx, R):
 def r8(ctx, R):
     from . import c08
     c08.r6(ctx, R)
+
+
+@rule('C10', 'C10.R9', 'mass-matrix path: immediately after restriction the coarse defect equals the restricted fine defect only if the residual of the mass-matrix sweeper distinguishes level 0 (M(u0 - u)) from coarse levels (u0 is stored mass-weighted there: u0 - M u) - defect signature shared with C03.R1b', floor=8)
+def r9(ctx, R):
+    from . import c03
+    c03.r1b(ctx, R)
